@@ -10,7 +10,8 @@
 (***************************************************************************)
 EXTENDS LSem, Json, IOUtils, TLCExt
 
-Cases == ndJsonDeserialize(IOEnv.TRACE_FILE)
+(* The file is read once (TLC does not cache IOEnv-dependent definitions). *)
+Cases == TLCGet(2)
 
 VARIABLE pos
 
@@ -22,13 +23,18 @@ Verdicts(c) ==
       loose == {k \in 1..Len(c.prog.rec) : ~ExactComp(pm, c.prog.rec[k])}
       upper == [k \in loose |-> UpperOf(c.prog, den, c.prog.rec[k], dev)]
       open == UNION {Range(c.prog.rec[k].members) : k \in {j \in loose : ~upper[j].conv}}
+      ties == {q \in DOMAIN den \ {"$"} :
+                 \E i \in 1..Len(den[q]) : \E f \in DOMAIN den[q][i] : HasAny(den[q][i][f])}
   IN [k \in 1..Len(c.obs) |->
         LET o == c.obs[k]
             e == den[o.p]
             mine == {j \in loose : o.p \in Range(c.prog.rec[j].members)}
-            tainted == (DepsT(pm, {}, {o.p}) \ (IF mine = {} THEN {}
-                          ELSE Range(c.prog.rec[CHOOSE j \in mine : TRUE].members)))
-                       \cap open # {}
+            tainted == \/ (DepsT(pm, {}, {o.p}) \ (IF mine = {} THEN {}
+                             ELSE Range(c.prog.rec[CHOOSE j \in mine : TRUE].members)))
+                          \cap open # {}
+                       \* a predicate that reads a tied ArgMin/ArgMax choice of another
+                       \* predicate has no unique denotation: not judged
+                       \/ (DepsT(pm, {}, {o.p}) \ {o.p}) \cap ties # {}
             good ==
               IF tainted THEN TRUE
               ELSE IF mine # {}
@@ -76,7 +82,7 @@ SameAsBase(c) ==
 
 AllOk(vs) == \A k \in 1..Len(vs) : vs[k].ok
 
-Init == pos = 1 /\ TLCSet(1, 0)
+Init == pos = 1 /\ TLCSet(1, 0) /\ TLCSet(2, ndJsonDeserialize(IOEnv.TRACE_FILE))
 
 Next ==
   /\ pos <= Len(Cases)
